@@ -30,6 +30,9 @@ type c12Spec struct {
 	// untouched lists the requests that address a service and route no mutation of the scenario
 	// changes: they must be answered as if no change were happening (as on the initial world)
 	untouched []int
+	// selfMut: request index -> mutation index that the request's own route function performs
+	// (an "admin" route that plugs a service in while it is being served)
+	selfMut map[int]int
 }
 
 func routeTo(id string) restful.RouteFunction {
@@ -83,6 +86,36 @@ var c12Specs = []c12Spec{
 		d := newWS("/d", true, "/x")
 		c.Add(d)
 		return &c12World{c: c, muts: []func(){func() { c.Remove(d) }}, reqs: []h.Req{get("b", "x"), get("x"), get("d", "x")}}
+	}},
+	{name: "options-vs-add", untouched: []int{0, 1}, servers: [][]int{{0, 1, 2}}, mutators: [][]int{{0}}, world: func(jsr bool) *c12World {
+		// the OPTIONS filter walks the registered services and their routes while one is added
+		c := c12Container(jsr)
+		c.Filter(c.OPTIONSFilter)
+		c.Add(newWS("/a", true, "/x"))
+		b := newWS("/b", true, "/x")
+		return &c12World{c: c, muts: []func(){func() { c.Add(b) }}, reqs: []h.Req{{Method: "OPTIONS", Segs: []string{"a", "x"}}, get("a", "x"), {Method: "OPTIONS", Segs: []string{"b", "x"}}}}
+	}},
+	{name: "options-vs-remove", untouched: []int{0}, servers: [][]int{{0, 1}}, mutators: [][]int{{0}}, world: func(jsr bool) *c12World {
+		c := c12Container(jsr)
+		c.Filter(c.OPTIONSFilter)
+		c.Add(newWS("/a", true, "/x"))
+		b := newWS("/b", true, "/x")
+		c.Add(b)
+		return &c12World{c: c, muts: []func(){func() { c.Remove(b) }}, reqs: []h.Req{{Method: "OPTIONS", Segs: []string{"a", "x"}}, {Method: "OPTIONS", Segs: []string{"b", "x"}}}}
+	}},
+	{name: "add-from-a-route-function", untouched: []int{2}, servers: [][]int{{0, 1}, {2}}, selfMut: map[int]int{0: 0}, world: func(jsr bool) *c12World {
+		// a route function adds a service to the container that is serving it
+		c := c12Container(jsr)
+		c.Add(newWS("/a", true, "/x"))
+		b := newWS("/b", true, "/x")
+		add := func() { c.Add(b) }
+		admin := new(restful.WebService).Path("/admin")
+		admin.Route(admin.GET("/plug").To(func(req *restful.Request, resp *restful.Response) {
+			add()
+			io.WriteString(resp, "plugged")
+		}))
+		c.Add(admin)
+		return &c12World{c: c, muts: []func(){add}, reqs: []h.Req{get("admin", "plug"), get("b", "x"), get("a", "x")}}
 	}},
 	{name: "route", untouched: []int{0}, servers: [][]int{{0, 1}}, mutators: [][]int{{0}}, world: func(jsr bool) *c12World {
 		c := c12Container(jsr)
@@ -187,7 +220,11 @@ func freerunC12(iters int) {
 						wg.Add(1)
 						go func() {
 							defer wg.Done()
-							for k := 0; k < 3; k++ {
+							rounds := 3
+							if len(sp.selfMut) > 0 {
+								rounds = 1 // its route function adds a service: once per container
+							}
+							for k := 0; k < rounds; k++ {
 								for _, ri := range reqs {
 									c12Do(w.c, serve, w.reqs[ri])
 								}
